@@ -187,7 +187,7 @@ def judge(ctx, meta, f, s, fcs, interpreted_too):
         judged = [j for j in range(fcs.size) if not res.empty[j] and j not in res.alts and j not in res.unbounded]
         if judged:
             want = np.repeat(s[:, :1], len(judged), axis=1)
-            ctx.check(close(out[:, judged], want, rtol=1e-12), "constant-reproduced",
+            ctx.check(close(out[:, judged], want, rtol=1e-9), "constant-reproduced",
                       f"{name}: constant spectrum not reproduced", maxrel=maxrel(out[:, judged], want), **meta)
     if interpreted_too:
         ref = call(name, f, s, fcs, b, interpreted=True)
